@@ -362,4 +362,313 @@ theorem whereUpper_eval (env : Env) (a : Nat) (s : Sec) (σ : Store) (hst : secS
       simp only [hr, Option.getD_some, Option.getD_none] <;> (try split) <;>
       simp_all [eval, evalBin, litE_eval'] <;> (try (congr 1; omega)) <;> (try omega)
 
+/-! ## Lemma S: the standard semantics, location by location -/
+
+/-- location `(x,i,j)` is element `i - lo` (`< n`) of the assignment's full-range LHS and is selected by `ctl` -/
+def MC (env : Env) (ctl : Nat → Bool) (w : WAssign) (n : Nat) (x : Nat) (i j : Int) : Prop :=
+  x = w.a ∧ j = 0 ∧ (env.get w.a).lo ≤ i ∧ i < (env.get w.a).lo + n ∧
+    ctl (i - (env.get w.a).lo).toNat = true
+
+instance (env : Env) (ctl : Nat → Bool) (w : WAssign) (n x : Nat) (i j : Int) : Decidable (MC env ctl w n x i j) := by
+  unfold MC; exact inferInstance
+
+theorem maskedStore_spec (env : Env) (ctl : Nat → Bool) (w : WAssign) (σ₀ : Store)
+    (hf : isFull env w.a w.s = true) (x : Nat) (i j : Int) :
+    ∀ (n : Nat) (τ : Store), maskedStore env ctl w σ₀ n τ (x, i, j) =
+      if MC env ctl w n x i j then evalA env (i - (env.get w.a).lo).toNat w.rhs σ₀ else τ (x, i, j) := by
+  intro n
+  induction n with
+  | zero =>
+    intro τ
+    simp only [maskedStore]
+    rw [if_neg]
+    rintro ⟨_, _, h1, h2, _⟩
+    omega
+  | succ n ih =>
+    intro τ
+    simp only [maskedStore, isFull_start hf, isFull_stride hf, Int.mul_one]
+    by_cases hc : ctl n = true
+    · rw [if_pos hc, Store.set_apply]
+      by_cases hloc : (x, i, j) = (w.a, (env.get w.a).lo + (n : Int), 0)
+      · rw [if_pos hloc]
+        simp only [Prod.mk.injEq] at hloc
+        obtain ⟨h1, h2, h3⟩ := hloc
+        have hk : (i - (env.get w.a).lo).toNat = n := by omega
+        rw [if_pos ⟨h1, h3, by omega, by omega, by rw [hk]; exact hc⟩, hk]
+      · rw [if_neg hloc, ih]
+        by_cases hn : MC env ctl w n x i j
+        · rw [if_pos hn, if_pos]
+          obtain ⟨h1, h2, h3, h4, h5⟩ := hn
+          exact ⟨h1, h2, h3, by omega, h5⟩
+        · rw [if_neg hn, if_neg]
+          rintro ⟨h1, h2, h3, h4, h5⟩
+          by_cases hi : i < (env.get w.a).lo + (n : Int)
+          · exact hn ⟨h1, h2, h3, hi, h5⟩
+          · apply hloc
+            rw [h1, h2]
+            have : i = (env.get w.a).lo + (n : Int) := by omega
+            rw [this]
+    · rw [if_neg hc, ih]
+      by_cases hn : MC env ctl w n x i j
+      · rw [if_pos hn, if_pos]
+        obtain ⟨h1, h2, h3, h4, h5⟩ := hn
+        exact ⟨h1, h2, h3, by omega, h5⟩
+      · rw [if_neg hn, if_neg]
+        rintro ⟨h1, h2, h3, h4, h5⟩
+        by_cases hi : i < (env.get w.a).lo + (n : Int)
+        · exact hn ⟨h1, h2, h3, hi, h5⟩
+        · have hk : (i - (env.get w.a).lo).toNat = n := by omega
+          rw [hk] at h5
+          exact hc h5
+
+/-- location `(x,i,j)` lies in one of the rows `0..n-1` of the assigned arrays `A` -/
+def InR (env : Env) (A : List Nat) (n : Nat) (x : Nat) (i j : Int) : Prop :=
+  x ∈ A ∧ j = 0 ∧ (env.get x).lo ≤ i ∧ i < (env.get x).lo + n
+
+instance (env : Env) (A : List Nat) (n x : Nat) (i j : Int) : Decidable (InR env A n x i j) := by
+  unfold InR; exact inferInstance
+
+def rowIdx (env : Env) (x : Nat) (i : Int) : Nat := (i - (env.get x).lo).toNat
+
+theorem InR.idx {env : Env} {A : List Nat} {n x : Nat} {i j : Int} (h : InR env A n x i j) :
+    i = (env.get x).lo + (rowIdx env x i : Nat) ∧ rowIdx env x i < n ∧ j = 0 := by
+  obtain ⟨_, h2, h3, h4⟩ := h
+  unfold rowIdx
+  omega
+
+theorem Rel.refl (env : Env) (A : List Nat) (wv k : Nat) (τ : Store) : Rel env A wv k τ τ :=
+  ⟨fun _ _ => rfl, fun _ _ _ _ _ => rfl⟩
+
+/-- the assignments of one block: a selected row gets the row program, everything else is unchanged -/
+theorem stdAssigns_spec {env : Env} {A : List Nat} {wv : Nat} (n : Nat) (ctl : Nat → Bool)
+    (ws : List WAssign) (he : elemAssigns env A wv ws = true) (hA : ∀ w ∈ ws, w.a ∈ A)
+    (x : Nat) (i j : Int) :
+    ∀ σ : Store, stdAssigns env n ctl ws σ (x, i, j) =
+      if InR env A n x i j ∧ ctl (rowIdx env x i) = true then rowAssigns env (rowIdx env x i) ws σ (x, i, j)
+      else σ (x, i, j) := by
+  induction ws with
+  | nil => intro σ; simp [stdAssigns, rowAssigns]
+  | cons w ws ih =>
+    intro σ
+    have he' := he
+    simp only [elemAssigns, List.all_cons, Bool.and_eq_true] at he'
+    have hews : elemAssigns env A wv ws = true := by simpa [elemAssigns] using he'.2
+    have hwA : w.a ∈ A := hA w (List.mem_cons_self ..)
+    have hAws : ∀ w' ∈ ws, w'.a ∈ A := fun w' hw' => hA w' (List.mem_cons_of_mem _ hw')
+    simp only [stdAssigns, maskedAssign]
+    rw [ih hews hAws]
+    by_cases hc : InR env A n x i j ∧ ctl (rowIdx env x i) = true
+    · rw [if_pos hc, if_pos hc]
+      simp only [rowAssigns]
+      obtain ⟨hin, hctl⟩ := hc
+      obtain ⟨hi, hlt, hj⟩ := hin.idx
+      -- the two stores agree on row k and outside A
+      have hrel : Rel env A wv (rowIdx env x i) (maskedStore env ctl w σ n σ)
+          (σ.set (w.a, (env.get w.a).lo + (rowIdx env x i : Nat), 0) (evalA env (rowIdx env x i) w.rhs σ)) := by
+        constructor
+        · intro a ha
+          rw [maskedStore_spec env ctl w σ he'.1.1, Store.set_apply]
+          by_cases hae : a = w.a
+          · rw [hae]
+            have hk : ((env.get w.a).lo + (rowIdx env x i : Nat) - (env.get w.a).lo).toNat = rowIdx env x i := by omega
+            rw [if_pos ⟨rfl, rfl, by omega, by omega, by rw [hk]; exact hctl⟩, if_pos rfl, hk]
+          · rw [if_neg (fun h => hae h.1), if_neg]
+            intro h
+            exact hae (congrArg Prod.fst h)
+        · intro y hy _ i' j'
+          rw [maskedStore_spec env ctl w σ he'.1.1, Store.set_apply]
+          have hyw : y ≠ w.a := fun h => hy (h ▸ hwA)
+          rw [if_neg (fun h => hyw h.1), if_neg]
+          intro h
+          exact hyw (congrArg Prod.fst h)
+      have := (rowAssigns_congr (k := rowIdx env x i) ws hews hrel).row x hin.1
+      have hloc : ((x, i, j) : Loc) = (x, (env.get x).lo + (rowIdx env x i : Nat), 0) := by
+        rw [hj]; exact congrArg (fun t => ((x, t, (0 : Int)) : Loc)) hi
+      rw [hloc]
+      exact this
+    · rw [if_neg hc, if_neg hc, maskedStore_spec env ctl w σ he'.1.1, if_neg]
+      rintro ⟨h1, h2, h3, h4, h5⟩
+      apply hc
+      subst h1
+      exact ⟨⟨hwA, h2, h3, h4⟩, h5⟩
+
+theorem stdClauses_spec {env : Env} {A : List Nat} {wv : Nat} (n : Nat) (cl : WClauses)
+    (he : elemClauses env A wv cl = true) (hA : ∀ a ∈ assignedArrs cl, a ∈ A) (x : Nat) (i j : Int) :
+    ∀ (pend : Nat → Bool) (σ : Store), stdClauses env n pend cl σ (x, i, j) =
+      if InR env A n x i j ∧ pend (rowIdx env x i) = true then rowClauses env (rowIdx env x i) cl σ (x, i, j)
+      else σ (x, i, j) := by
+  induction cl with
+  | nil => intro pend σ; simp [stdClauses, rowClauses]
+  | final body =>
+    intro pend σ
+    simp only [stdClauses, rowClauses]
+    exact stdAssigns_spec n pend body (by simpa [elemClauses] using he)
+      (fun w hw => hA _ (by simp only [assignedArrs, List.mem_map]; exact ⟨w, hw, rfl⟩)) x i j σ
+  | masked m body rest ih =>
+    intro pend σ
+    simp only [elemClauses, Bool.and_eq_true] at he
+    have hAb : ∀ w ∈ body, w.a ∈ A := fun w hw =>
+      hA _ (by simp only [assignedArrs, List.mem_append, List.mem_map]; exact Or.inl ⟨w, hw, rfl⟩)
+    have hAr : ∀ a ∈ assignedArrs rest, a ∈ A := fun a ha =>
+      hA a (by simp only [assignedArrs, List.mem_append]; exact Or.inr ha)
+    simp only [stdClauses]
+    rw [ih he.2 hAr]
+    -- the store after the block, location by location
+    have hblock := fun x' i' j' => stdAssigns_spec (A := A) (wv := wv) n
+      (fun k => pend k && (evalA env k m σ != 0)) body he.1.2 hAb x' i' j' σ
+    by_cases hin : InR env A n x i j
+    · obtain ⟨hi, hlt, hj⟩ := hin.idx
+      by_cases hp : pend (rowIdx env x i) = true
+      · by_cases hv : evalA env (rowIdx env x i) m σ ≠ 0
+        · -- selected by this clause
+          have hb : (evalA env (rowIdx env x i) m σ != 0) = true := by simpa using hv
+          rw [if_neg (by simp [hp, hb]), hblock, if_pos ⟨hin, by simp [hp, hb]⟩, if_pos ⟨hin, hp⟩]
+          simp only [rowClauses, if_pos hv]
+        · have hb : (evalA env (rowIdx env x i) m σ != 0) = false := by simpa using hv
+          rw [if_pos ⟨hin, by simp [hp, hb]⟩, if_pos ⟨hin, hp⟩]
+          simp only [rowClauses, if_neg hv]
+          -- row untouched by the block: continue with the rest on an equivalent store
+          have hrel : Rel env A wv (rowIdx env x i)
+              (stdAssigns env n (fun k => pend k && (evalA env k m σ != 0)) body σ) σ := by
+            constructor
+            · intro a ha
+              rw [hblock, if_neg]
+              rintro ⟨hin', hc'⟩
+              have : rowIdx env a ((env.get a).lo + (rowIdx env x i : Nat)) = rowIdx env x i := by
+                unfold rowIdx; omega
+              rw [this] at hc'
+              simp [hb] at hc'
+            · intro y hy _ i' j'
+              rw [hblock, if_neg]
+              rintro ⟨hin', _⟩
+              exact hy hin'.1
+          have := (rowClauses_congr (k := rowIdx env x i) rest he.2 hrel).row x hin.1
+          have hloc : ((x, i, j) : Loc) = (x, (env.get x).lo + (rowIdx env x i : Nat), 0) := by
+            rw [hj]; exact congrArg (fun t => ((x, t, (0 : Int)) : Loc)) hi
+          rw [hloc]
+          exact this
+      · -- not pending: nothing happens to this row any more
+        rw [if_neg (by simp [hp]), hblock, if_neg (by simp [hp]), if_neg (by simp [hp])]
+    · rw [if_neg (fun h => hin h.1), hblock, if_neg (fun h => hin h.1), if_neg (fun h => hin h.1)]
+
+/-! ## Lemma F: the fold over the positions, location by location -/
+
+theorem rowFold_spec {env : Env} {A : List Nat} {wv : Nat} (cl : WClauses)
+    (he : elemClauses env A wv cl = true) (hA : ∀ a ∈ assignedArrs cl, a ∈ A) (hwv : wv ∉ A) (σ : Store) :
+    ∀ (n : Nat) (x : Nat) (i j : Int), (x, i, j) ≠ ((wv, 0, 0) : Loc) →
+      rowFold env wv cl n σ (x, i, j) =
+        if InR env A n x i j then rowClauses env (rowIdx env x i) cl σ (x, i, j) else σ (x, i, j) := by
+  intro n
+  induction n with
+  | zero =>
+    intro x i j _
+    simp only [rowFold]
+    rw [if_neg]
+    rintro ⟨_, _, h1, h2⟩
+    omega
+  | succ n ih =>
+    intro x i j hne
+    simp only [rowFold]
+    by_cases hrow : x ∈ A ∧ i = (env.get x).lo + (n : Int) ∧ j = 0
+    · -- the row processed by this iteration
+      obtain ⟨hxA, hi, hj⟩ := hrow
+      have hk : rowIdx env x i = n := by unfold rowIdx; omega
+      have hin : InR env A (n + 1) x i j := ⟨hxA, hj, by omega, by omega⟩
+      rw [if_pos hin, hk]
+      have hrel : Rel env A wv n ((rowFold env wv cl n σ).set (wv, 0, 0) ((n : Int) + 1)) σ := by
+        constructor
+        · intro a ha
+          have hane : ((a, (env.get a).lo + (n : Int), 0) : Loc) ≠ (wv, 0, 0) := by
+            intro h
+            have hawv : a = wv := congrArg Prod.fst h
+            exact hwv (hawv ▸ ha)
+          rw [Store.set_apply, if_neg hane, ih a _ 0 hane, if_neg]
+          rintro ⟨_, _, _, h4⟩
+          omega
+        · intro y hy hyw i' j'
+          have hyne : ((y, i', j') : Loc) ≠ (wv, 0, 0) := fun h => hyw (congrArg Prod.fst h)
+          rw [Store.set_apply, if_neg hyne, ih y i' j' hyne, if_neg]
+          rintro ⟨h1, _⟩
+          exact hy h1
+      have := (rowClauses_congr (k := n) cl he hrel).row x hxA
+      rw [hi, hj]
+      exact this
+    · rw [rowClauses_frame env A n cl hA x i j hrow, Store.set_apply, if_neg hne, ih x i j hne]
+      by_cases hin : InR env A n x i j
+      · rw [if_pos hin, if_pos]
+        obtain ⟨h1, h2, h3, h4⟩ := hin
+        exact ⟨h1, h2, h3, by omega⟩
+      · rw [if_neg hin, if_neg]
+        rintro ⟨h1, h2, h3, h4⟩
+        by_cases hi : i < (env.get x).lo + (n : Int)
+        · exact hin ⟨h1, h2, h3, hi⟩
+        · exact hrow ⟨h1, by omega, h2⟩
+
+theorem firstSec_stride (env : Env) (A : List Nat) (wv : Nat) (m : AExpr) (a : Nat) (sc : Sec) :
+    firstSec m = some (a, sc) → elemA env A wv m = true → secStride sc = 1 := by
+  induction m with
+  | scal e => intro hfs; simp [firstSec] at hfs
+  | sec a' s' =>
+    intro hfs hm
+    simp only [firstSec, Option.some.injEq, Prod.mk.injEq] at hfs
+    simp only [elemA, Bool.and_eq_true, beq_iff_eq] at hm
+    rw [← hfs.2]; exact hm.1.1
+  | un op e ih => intro hfs hm; exact ih (by simpa [firstSec] using hfs) (by simpa [elemA] using hm)
+  | bin op e1 e2 ih1 ih2 =>
+    intro hfs hm
+    simp only [elemA, Bool.and_eq_true] at hm
+    simp only [firstSec] at hfs
+    cases h1 : firstSec e1 with
+    | none => rw [h1] at hfs; exact ih2 hfs hm.2
+    | some r => rw [h1] at hfs; exact ih1 (by rw [h1]; exact hfs) hm.1
+  | sum a' => intro hfs; simp [firstSec] at hfs
+  | sumDim a' => intro hfs; simp [firstSec] at hfs
+
+/-- **the WHERE lowering is sound for elemental constructs** (all extents, all stores): the
+generated loop leaves the store of the standard semantics, and `extent + 1` in its loop variable -/
+theorem where_lowered_sound (env : Env) (tag wv : Nat) (cl : WClauses) (s : Src)
+    (hl : lowerWhere env wv cl = some s) (he : whereElemental env wv cl = true) (σ : Store) :
+    execSrc env s σ = execSrc env (.whereC tag wv cl) σ := by
+  simp only [whereElemental, Bool.and_eq_true, Bool.not_eq_true'] at he
+  obtain ⟨hwvA, hel⟩ := he
+  have hwv : wv ∉ assignedArrs cl := by
+    intro h
+    have hc : (assignedArrs cl).contains wv = true := List.contains_iff_mem.mpr h
+    rw [hwvA] at hc
+    cases hc
+  have hAne : ∀ a ∈ assignedArrs cl, a ≠ wv := fun a ha h => hwv (h ▸ ha)
+  cases cl with
+  | nil => simp [lowerWhere] at hl
+  | final body => simp [lowerWhere] at hl
+  | masked m body rest =>
+    simp only [lowerWhere] at hl
+    split at hl
+    · cases hl
+    · cases hfs : firstSec m with
+      | none => rw [hfs] at hl; cases hl
+      | some as =>
+        obtain ⟨a, sc⟩ := as
+        rw [hfs] at hl
+        simp only [Option.some.injEq] at hl
+        subst hl
+        -- the mask's first section has unit stride
+        have hst : secStride sc = 1 := by
+          simp only [elemClauses, Bool.and_eq_true] at hel
+          exact firstSec_stride env _ wv m a sc hfs hel.1.1
+        have hn : whereExtent env (.masked m body rest) = secExtent env a sc := by
+          simp only [whereExtent, hfs]
+        simp only [execSrc, run, eval, execWhere, hn]
+        rw [whereUpper_eval env a sc σ hst, runIters_eq_iters,
+          iters_rowFold (A := assignedArrs (.masked m body rest)) _ hel hAne]
+        apply Store.ext
+        funext ⟨x, i, j⟩
+        by_cases hloc : ((x, i, j) : Loc) = (wv, 0, 0)
+        · rw [hloc]
+          simp only [Store.set_same]
+          omega
+        · rw [Store.set_apply, if_neg hloc, Store.set_apply, if_neg hloc,
+            rowFold_spec _ hel (fun a ha => ha) hwv σ _ x i j hloc,
+            stdClauses_spec _ _ hel (fun a ha => ha) x i j]
+          simp
+
 end C01
